@@ -37,6 +37,8 @@ DOC_SHAPES = [
     None, "A description.\n", ["first\n", " second  "], {"description": "text\n", "examples": ["ex 1\n", "ex 2"]},
     {"description": ["a\n", "b"], "examples": []}, {"description": "only description"},
     {"examples": ["only example\n"]}, {"description": ["x"], "examples": ["`code` <b>\n"]}, "", [],
+    "para one\n\npara two\n", {"description": "a\n \t\n b", "examples": ["e1\n\n\ne2", "x\n   \ny\n"]},
+    ["l1\n\nl2", "  x\n   \ny"], {"description": ["p\n\n\nq\n", "r"]},
 ]
 
 
@@ -147,6 +149,18 @@ def strata(tier):
         r1 = {"path": PC.mkpath([{"p": "prim", "v": "country"}, {"p": "prim", "v": k}]), "cond": PC.L("value", "equal_to", k), "cast": None, "doc_spec": None}
         r2 = {"path": PC.mkpath([{"p": "prim", "v": k}]), "cond": PC.L("value", "in_", [k, "x"]), "cast": None, "doc_spec": k}
         yield {"kind": "yaml", "rules": [r1, r2], "sseed": j, "doc": {"country": {k: k, "zz": 1}, k: "nope"}, "file": j % 2 == 0}
+    # multi-line strings (inner blank and whitespace-only lines) as arguments and descriptions, written as block scalars
+    ML = ["x\n   \ny\n", "a\n\nb", "  lead\nx\n", "x\n \t\n y", "tr  \nx\n", "\n\nx\n", "one\n", "p\n\n\n\nq"]
+    for j, sv in enumerate(ML):
+        doc = {"s": sv, "t": sv.replace("   ", ""), "u": [sv, "x\n\ny\n", sv.strip()], sv: 1}
+        r1 = {"path": PC.mkpath([{"p": "prim", "v": "s"}]), "cond": PC.L("value", "equal_to", sv), "cast": None, "doc_spec": sv}
+        r2 = {"path": PC.mkpath([{"p": "prim", "v": "u"}, {"p": "list"}]), "cond": PC.L("value", "in_", [sv, "zz"]), "cast": None,
+              "doc_spec": {"description": [sv, "plain"], "examples": [sv]}}
+        r3 = {"path": PC.mkpath([{"p": "prim", "v": "t"}]), "cond": PC.L("value", "not_equal_to", sv), "cast": None, "doc_spec": None}
+        r4 = {"path": PC.mkpath([{"p": "map", "key": PC.L("key", "equal_to", sv)}]), "cond": PC.L("value", "equal_to", 1), "cast": None, "doc_spec": [sv]}
+        for blk in (True, False):
+            yield {"kind": "yaml", "rules": [r1, r2, r3, r4], "sseed": j, "doc": doc, "file": j % 2 == 0, "block": blk}
+            yield {"kind": "rule", "rule": r1, "sseed": j, "doc": doc}
     for di, ds in enumerate(DOC_SHAPES):
         for ci, cast in enumerate((None, [["str", "bool"]], [["str", "int"]])):
             for j in range(2 if tier == "quick" else 6):
@@ -558,12 +572,24 @@ def schema_fp(s, doc):
     return (vd.is_valid, vd.num_failures, vd.num_rules_tested, canon(vd.cast_data))
 
 
-def yaml_text(spec):
+def _block_scalars(x):
+    from ruamel.yaml.scalarstring import LiteralScalarString
+    if type(x) is dict:
+        return {k: _block_scalars(v) for k, v in x.items()}
+    if type(x) is list:
+        return [_block_scalars(v) for v in x]
+    if type(x) is str and "\n" in x:
+        return LiteralScalarString(x)
+    return x
+
+
+def yaml_text(spec, block=False):
+    """the YAML text of a spec (block=True: multi-line strings written as literal block scalars, as people write them)"""
     from ruamel.yaml import YAML
-    y = YAML(typ="safe")
+    y = YAML() if block else YAML(typ="safe")
     y.default_flow_style = False
     buf = io.StringIO()
-    y.dump(spec, buf)
+    y.dump(_block_scalars(spec) if block else spec, buf)
     text = buf.getvalue()
     back = YAML(typ="safe").load(text)
     return text, canon(sort_dicts(back)) == canon(sort_dicts(spec))
@@ -580,7 +606,14 @@ def run_yaml(case, ctx):
     except build.Inexpressible:
         ctx.count("skipped:inexpressible")
         return
-    text, rt_ok = yaml_text({"rules": specs})
+    block = bool(case.get("block", case["sseed"] % 3 == 0))
+    try:
+        text, rt_ok = yaml_text({"rules": specs}, block)
+    except Exception:
+        text, rt_ok = yaml_text({"rules": specs})
+        block = False
+    if block and rt_ok and "|" in text:
+        ctx.count("yaml:block-scalars")
     if not rt_ok:
         ctx.count("skipped:yaml-cannot-represent")
         return
